@@ -215,7 +215,12 @@ def open_device(path, mode="rb", data_format=None):
     if not is_device_path(path):
         # 'mode' can only be 'rb' or 'wb', so 'encoding' is useless, but pylint
         # can't infer this
-        return open(path, mode)  # pylint: disable=unspecified-encoding
+        try:
+            return open(path, mode)  # pylint: disable=unspecified-encoding
+        except ValueError as ex:
+            # The path is not valid at all, e.g. contains a NUL character.
+            # The callers report I/O errors
+            raise IOError(str(ex)) from ex
 
     name = path[1:].split()[0]
 
